@@ -18,7 +18,8 @@ Judge(e) ==
          IN  IF e.panic THEN <<"ComputeMAC panicked", want>>
              ELSE IF e.err THEN <<"ComputeMAC failed on a valid key", want>>
              ELSE IF e.out # want THEN <<"tag differs from prefix || Trunc(F(key, msg))", want>>
-             ELSE IF e.out2 # e.out THEN <<"ComputeMAC not deterministic", want>>
+             ELSE IF e.out2 # e.out THEN <<"ComputeMAC not deterministic (or an earlier returned tag was changed by a later call)", want>>
+             ELSE IF "inIntact" \in DOMAIN e /\ ~e.inIntact THEN <<"ComputeMAC changed the caller's message buffer", want>>
              ELSE <<>>
     [] e.ev = "verify" ->
          LET want == Verify(Cfg(e), HexToBytes(e.key), HexToBytes(e.tag), HexToBytes(e.msg))
